@@ -161,7 +161,10 @@ theorem push_raised : ∀ (x : SVal) (b : B), Raised ext (positions b) (CallsOf 
   | .str v, b => by
     unfold push; exact Raised.ctx_own b (.val (.str v)) subset_refl' (.inl (.self _)) (fun msg h => .body h) (NoCtx.raised _)
   | .unitStruct v, b => by
-    unfold push; exact Raised.ctx_own b (.val (.unitStruct v)) subset_refl' (.inl (.self _)) (fun msg h => .body h) (NoCtx.raised _)
+    unfold push
+    split
+    · exact Raised.ctx_own _ (.val (.unitStruct v)) subset_refl' (.inl (.self _)) (fun msg h => .body h) (NoCtx.raised _)
+    · exact Raised.monoC hP_of (pushNone_raised b)
 theorem pushElems_raised : ∀ (xs : SVals) (large : Bool) (el : B) (offs : List Int),
     Raised ext (positions el) (CallsOfL xs) (pushElems ext large el offs xs)
   | .nil, large, el, offs => by rw [pushElems]; exact Raised.of_ok _
